@@ -87,6 +87,35 @@ fn segments(z: &RefZone, lo: i64, hi: i64) -> Vec<(i64, i32)> {
 /// First and last instant (ns) whose local date is `day` (None if the day
 /// does not exist in the zone).
 pub fn day_bounds(z: &RefZone, day: i64) -> Option<(i128, i128)> {
+    day_bounds_ex(z, day).map(|(a, b, _)| (a, b))
+}
+
+/// As `day_bounds`, plus whether the day's instants are contiguous (false
+/// when a fold straddling midnight splits the civil day into two ranges).
+pub fn day_bounds_ex(z: &RefZone, day: i64) -> Option<(i128, i128, bool)> {
+    let d0 = day * 86400;
+    let d1 = d0 + 86400;
+    let segs = segments(z, d0 - 200_000, d1 + 200_000);
+    let mut first: Option<i64> = None;
+    let mut last_excl: Option<i64> = None;
+    let mut total = 0i64;
+    for i in 0..segs.len() {
+        let (s, o) = segs[i];
+        let e = if i + 1 < segs.len() { segs[i + 1].0 } else { i64::MAX };
+        let a = s.max(d0 - o as i64);
+        let b = e.min(d1 - o as i64);
+        if a < b {
+            total += b - a;
+            first = Some(first.map_or(a, |f: i64| f.min(a)));
+            last_excl = Some(last_excl.map_or(b, |l: i64| l.max(b)));
+        }
+    }
+    let (f, l) = (first?, last_excl?);
+    Some((f as i128 * NS_PER_SEC, l as i128 * NS_PER_SEC - 1, total == l - f))
+}
+
+#[allow(dead_code)]
+fn day_bounds_old(z: &RefZone, day: i64) -> Option<(i128, i128)> {
     let d0 = day * 86400;
     let d1 = d0 + 86400;
     let segs = segments(z, d0 - 200_000, d1 + 200_000);
